@@ -447,7 +447,7 @@ def short(x, n=240):
 
 
 def run_nrt(rep):
-    n = 1500 if rep.tier == 'thorough' else 200
+    n = 5000 if rep.tier == 'thorough' else 200
     fails = []
     distinct = set()
     sends = refused = 0
@@ -521,7 +521,7 @@ def run_reuse(rep):
                 ['wait', 1], ['shared', 0.1 if spec[0] == 'm' or spec[0][1] is not None else None, 'a'],
                 ['wait', 0.5], ['shared', None, 'a']]}],
                 'shared': {'a': spec}, 'outside': [], 'funcs': [], 'tail': 0})
-    n = 200 if rep.tier == 'thorough' else 40
+    n = 600 if rep.tier == 'thorough' else 40
     progs = list(fixed)
     for _ in range(n):
         prog = gen_program(rng)
@@ -937,7 +937,7 @@ RT_FIXED = {
 
 
 def start_rt(rep):
-    nchild, nprog = (12, 12) if rep.tier == 'thorough' else (6, 5)
+    nchild, nprog = (16, 16) if rep.tier == 'thorough' else (6, 5)
     specs = []
     for i in range(nchild):
         progs = [RT_FIXED] if i == 0 else []
